@@ -342,6 +342,17 @@ def reentrant(sem, cap=200):
     return False
 
 
+def _leads_with_action(s):
+    """a block statement whose first executed statement is an action (try / loop / foreach bodies, if branches)"""
+    k = s.kind
+    if k in ("try", "loop", "foreach"):
+        body = s.body
+        return bool(body) and (body[0].kind in ACTION_KINDS or _leads_with_action(body[0]))
+    if k == "if":
+        return any(b and (b[0].kind in ACTION_KINDS or _leads_with_action(b[0])) for _, b in s.branches) or bool(s.orelse and (s.orelse[0].kind in ACTION_KINDS or _leads_with_action(s.orelse[0])))
+    return False
+
+
 def is_open(sem):
     return bool(tail_open(sem))
 
@@ -701,6 +712,8 @@ class Gen:
             if self.p["no_action_after_open"] and s.kind in ACTION_KINDS and prev_open:
                 if prev_open is True or s.kind not in STRICT_KINDS:
                     continue
+            if self.p["no_action_after_open"] and prev_open and _leads_with_action(s):
+                continue        # the same construct one level down: `r += /20+/; try { s = "x"; ..` - the block's first statement is the action
             stmts.append(s)
             if s.kind in ACTION_KINDS:
                 # actions neither consume nor change what the next match must avoid
